@@ -4,6 +4,7 @@ mod gen_cmd;
 mod gen_edit;
 mod gen_files;
 mod gen_isa;
+mod gen_lex;
 mod gen_run;
 mod prog;
 mod session;
@@ -26,6 +27,7 @@ fn main() {
         ("gen", "cmd") => gen_cmd::main(&args),
         ("gen", "files") => gen_files::main(&args),
         ("gen", "edit") => gen_edit::main(&args),
+        ("gen", "lex") => gen_lex::main(&args),
         (a, b) => {
             eprintln!("unknown command {a} {b}");
             std::process::exit(2);
